@@ -209,7 +209,11 @@ func TestVerifC07Addon(t *testing.T) {
 			}
 		}
 		rep.Count(cj, len(in.Want) > 1)
-		coq = append(coq, fmt.Sprintf("CDecode %s %s 0 %s", vdKind(), cqBytes(in.Data), obs))
+		emitData := in.Data
+		if name == "skeleton" {
+			emitData = nil // noopDecoder.Decode takes object keys only, never the bytes
+		}
+		coq = append(coq, fmt.Sprintf("CDecode %s %s 0 %s", vdKind(), cqBytes(emitData), obs))
 		jsons = append(jsons, cj)
 		if _, _, sup := vdecParseIndex(nil); sup {
 			iobs, es, ierr := vdIndexObs(in.Index)
@@ -280,7 +284,11 @@ func TestVerifC34Addon(t *testing.T) {
 		if len(rep.Samples) < 3 {
 			rep.Sample(map[string]any{"class": in.Class, "len": len(in.Data), "outcome": out})
 		}
-		coq = append(coq, fmt.Sprintf("CDecode %s %s 0 %s", kind, cqBytes(in.Data), obs))
+		emitData := in.Data
+		if name == "skeleton" {
+			emitData = nil // noopDecoder.Decode takes object keys only, never the bytes
+		}
+		coq = append(coq, fmt.Sprintf("CDecode %s %s 0 %s", kind, cqBytes(emitData), obs))
 		jsons = append(jsons, cj)
 	}
 	rep.Cases("C34_"+name, vdRequires, "case", "check_case", coq, jsons)
